@@ -81,8 +81,14 @@ CLAIMED = {
              "is the last entry's key, nothing panics. Tied to the code by differential runs on vouchers created by the real DI service "
              "and extended 0..4 times (6 key types x 3 encodings), with every-byte bit flips, entry swaps/duplications/drops/splices, "
              "foreign header/HMAC/cert chain, wrong secret/key hash, CBOR mutations; implementation monitors: honest accepted with the "
-             "right owner, any bound change rejected, ExtendVoucher refuses every non-owner signer and next keys of another type/size.",
-        note=COMMON_NOTE + "ExtendVoucher and VerifyDeviceCertChain (x509 path validation) are checked on the implementation only. "
+             "right owner, any bound change rejected, ExtendVoucher refuses every non-owner signer and next keys of another type/size. "
+             "ExtendVoucher itself is modelled (Fdo/Extend.v: key guard, hashAlgFor, the payload of the new entry): the guard passes only for the "
+             "current owner among keys of one kind and size (C04_extend_only_owner), and an honest extension of a verifying chain of any length "
+             "verifies again and names the new key (C04_extension_verifies, C04_extension_owner); compared with the library over signer roles x "
+             "next keys (other types, sizes, P-224/P-521/RSA-1024) x chain lengths 0..3 x extra maps (kind voucher.extendcase: refuse/ok + the exact "
+             "payload bytes).",
+        note=COMMON_NOTE + "VerifyDeviceCertChain (x509 path validation) is checked on the implementation only; in voucher.extendcase the encoded "
+             "next-owner key given to the model is the one the library produced (protocol.NewPublicKey is not modelled; a monitor checks it names the key asked for). "
              "Collision resistance / unforgeability of the primitives is not claimed: theorems reduce acceptance of an alteration to "
              "an oracle answer.",
         technique="Rocq proof (induction over the entry chain, reduction to oracle collisions) + differential correspondence",
